@@ -22,7 +22,7 @@ var c09Chars = []string{"a", "é", " ", "$", `\`, "0", "n", "p", "{", "}", "\n\t
 
 var c09Types = []string{"", "ascii", "braille", "custom"}
 
-const c09Origins = 16
+const c09Origins = 17
 
 func terminatorOf(typ string) string {
 	switch typ {
@@ -198,6 +198,11 @@ func runC09(tier string) int {
 			src, label = "script S {\n\tif (q("+lit+") == 1 || flag(A) && flag(B)) {\n\t\tx\n\t}\n}\n", "S_Text_0"
 		case 14: // AutoVar switch operand
 			src, label = "script S {\n\tswitch (q("+lit+")) {\n\t\tcase 1:\n\t\t\tx\n\t}\n}\n", "S_Text_0"
+		case 16: // after a plain inline text that is spelled like this text's type followed by its content
+			if typ == "" {
+				return
+			}
+			src, label = "script S {\n\ta("+quote(typ+strings.Join(it.parts, ""))+")\n\tb("+lit+")\n}\n", "S_Text_1"
 		default: // negated last operand of a do...while condition, inside a group
 			src, label = "script S {\n\tdo {\n\t\tx\n\t} while (flag(A) || (flag(B) && !q("+lit+")))\n}\n", "S_Text_0"
 		}
@@ -320,5 +325,5 @@ func runC09(tier string) int {
 		"contents whose terminator would straddle two parts are not generated (the property can be read both ways there)",
 		"for format() origins the source lines are the lines of the exported FormatText's result (its content is C07's business)")
 	return r.Finish(r.Get("evaluations"), r.Get("nontrivial"),
-		"every content of total length <= L over {a, é, space, $, \\, 0, n, p, {, }, newline-inside-literal} split into 1-3 literal parts x 3 layouts (same line / one part per line / several comment lines between the parts) x 4 string types x 16 origins (argument of an AutoVar command standing first / in the middle / last in &&- and ||-chains of if, while and do...while conditions and as a switch operand, text statement, inline argument, format() of each, poryswitch case selected directly / through '_' / brace form, argument inside an if, after / before a typed inline text in the same command, after typed texts elsewhere); plus texts of K parts for every K up to the bound in the coverage (statement and inline, every string type); non-trivial = >= 2 parts and a string type")
+		"every content of total length <= L over {a, é, space, $, \\, 0, n, p, {, }, newline-inside-literal} split into 1-3 literal parts x 3 layouts (same line / one part per line / several comment lines between the parts) x 4 string types x 17 origins (after a plain text spelled like the type plus the content, argument of an AutoVar command standing first / in the middle / last in &&- and ||-chains of if, while and do...while conditions and as a switch operand, text statement, inline argument, format() of each, poryswitch case selected directly / through '_' / brace form, argument inside an if, after / before a typed inline text in the same command, after typed texts elsewhere); plus texts of K parts for every K up to the bound in the coverage (statement and inline, every string type); non-trivial = >= 2 parts and a string type")
 }
